@@ -595,6 +595,9 @@ def expect_diff(scn):
         return None
     equal = orderless(snapshot.typed_merged(ldoc)) == \
         orderless(snapshot.typed_merged(rdoc))
+    # 1, 1.0 and true compare equal in Python; a pair that differs only in
+    # such a way is neither clearly "equal" nor clearly "different"
+    ambiguous = (not equal) and plain(ldoc) == plain(rdoc)
     def opt(flag):
         return scn["opts"][scn["opts"].index(flag) + 1] \
             if flag in scn["opts"] else None
@@ -633,7 +636,8 @@ def expect_diff(scn):
     keyed = (opt("-O") in ("key", "deep") or "aoh = key" in ini
              or "aoh = deep" in ini)
     return {"equal": equal, "library_changed": changed,
-            "default_modes": not (opt("-c") or opt("-A") or opt("-O")),
+            "default_modes": not (opt("-c") or opt("-A") or opt("-O")
+                                  or ambiguous),
             # key/deep modes match Array-of-Hashes records by an identity
             # key; records lacking it are unmatchable BY DESIGN and are
             # reported as removed and re-added even in identical documents
